@@ -15,6 +15,7 @@ import (
 	"github.com/Trendyol/go-dcp/config"
 	"github.com/Trendyol/go-dcp/couchbase"
 	"github.com/Trendyol/go-dcp/models"
+	"github.com/Trendyol/go-dcp/servicediscovery"
 
 	"verif/journal"
 )
@@ -59,6 +60,11 @@ type Member struct {
 	app         *fiber.App
 	scraping    bool
 	lateScrapes int
+	sd          servicediscovery.ServiceDiscovery
+	infoSent    bool
+	notifInFlight int
+	notifCount    int
+	phase       string // open | closing | closed | opening (from the lifecycle callbacks)
 }
 
 func (m *Member) tag(role string) string { return fmt.Sprintf("m%d%s", m.id, role) }
@@ -190,11 +196,19 @@ func (h handler) ev(name string) {
 		return
 	}
 	h.m.w.jl(&journal.Ev{K: journal.KHandler, M: h.m.id, Vb: -1, S: name})
-	if name == "BeforeStreamStart" {
-		h.m.w.mu.Lock()
+	h.m.w.mu.Lock()
+	switch name {
+	case "BeforeStreamStart":
 		h.m.sess++
-		h.m.w.mu.Unlock()
+		h.m.phase = "opening"
+	case "AfterStreamStart":
+		h.m.phase = "open"
+	case "BeforeStreamStop":
+		h.m.phase = "closing"
+	case "AfterStreamStop":
+		h.m.phase = "closed"
 	}
+	h.m.w.mu.Unlock()
 }
 func (h handler) BeforeRebalanceStart() { h.ev("BeforeRebalanceStart") }
 func (h handler) AfterRebalanceStart()  { h.ev("AfterRebalanceStart") }
@@ -330,7 +344,7 @@ func (m *Member) start() {
 		}
 		m.dagent = m.createDcpAgent()
 		m.client = couchbase.VerifNewClient(c, m.agent, m.meta, m.dagent)
-		m.bus = EventBus.New()
+		m.bus = &jbus{Bus: EventBus.New(), m: m}
 		v := w.cfg.Version
 		m.d = dcp.VerifNewDcp(c, m.client, m, &couchbase.Version{Major: v[0], Minor: v[1], Patch: v[2]},
 			&couchbase.BucketInfo{BucketType: w.cfg.BucketType, StorageBackend: "couchstore"}, m.bus)
